@@ -37,6 +37,23 @@ def tree_digest(tree):
 
 
 def run_case(ctg, case):
+    if case.get("same_object") and case["api"] in SAME_OBJECT_APIS:
+        # the same seeded, non-inplace call twice on ONE tree object (which a
+        # first, differently seeded, reconfiguration has already been through):
+        # the answer must not depend on what was called before
+        tree = build_tree(ctg, case)
+        if case.get("pre_reconf"):
+            tree.subtree_reconfigure_(subtree_size=3, maxiter=2, seed=12345)
+        first = run_case_inner(ctg, case, tree)
+        second = run_case_inner(ctg, case, tree)
+        return {"first": first, "second": second}
+    return run_case_inner(ctg, case, None)
+
+
+SAME_OBJECT_APIS = ("slice", "reconf", "reconf_forest", "anneal", "temper", "unslice_rand", "get_subtree")
+
+
+def run_case_inner(ctg, case, shared_tree):
     api = case["api"]
     s = case["seed"]
     net = case.get("net")
@@ -70,32 +87,32 @@ def run_case(ctg, case):
             t = b.build_agglom(inputs, output, sizes, seed=s, groupsize=a["groupsize"], random_strength=a["rs"])
         return tree_digest(t)
     if api == "slice":
-        tree = build_tree(ctg, case)
+        tree = shared_tree if shared_tree is not None else build_tree(ctg, case)
         tsz = max(1, tree.max_size() // a["div"])
         t2 = tree.slice(target_size=tsz, seed=s, temperature=a["temp"], max_repeats=a["reps"])
         return tree_digest(t2)
     if api == "slicefinder":
-        tree = build_tree(ctg, case)
+        tree = shared_tree if shared_tree is not None else build_tree(ctg, case)
         tsz = max(1, tree.max_size() // a["div"])
         sf = ctg.slicer.SliceFinder(tree, target_size=tsz, seed=s, temperature=a["temp"])
         ix, cost = sf.search(a["reps"])
         return {"ix": sorted(ix), "size": cost.size, "flops": cost.total_flops}
     if api == "reconf":
-        tree = build_tree(ctg, case)
+        tree = shared_tree if shared_tree is not None else build_tree(ctg, case)
         t2 = tree.subtree_reconfigure(
             subtree_size=a["size"], subtree_search=a["search"], select=a["select"],
             maxiter=a["maxiter"], seed=s,
         )
         return tree_digest(t2)
     if api == "reconf_forest":
-        tree = build_tree(ctg, case)
+        tree = shared_tree if shared_tree is not None else build_tree(ctg, case)
         t2 = tree.subtree_reconfigure_forest(
             num_trees=a["num_trees"], num_restarts=a["restarts"], subtree_maxiter=a["maxiter"],
             subtree_size=a["size"], parallel=False, seed=s,
         )
         return tree_digest(t2)
     if api == "anneal":
-        tree = build_tree(ctg, case)
+        tree = shared_tree if shared_tree is not None else build_tree(ctg, case)
         kw = {}
         if a["div"]:
             kw["target_size"] = max(1, tree.max_size() // a["div"])
@@ -103,7 +120,7 @@ def run_case(ctg, case):
         t2 = tree.simulated_anneal(tsteps=a["tsteps"], numiter=a["numiter"], seed=s, **kw)
         return tree_digest(t2)
     if api == "temper":
-        tree = build_tree(ctg, case)
+        tree = shared_tree if shared_tree is not None else build_tree(ctg, case)
         kw = {}
         if a["div"]:
             kw["target_size"] = max(1, tree.max_size() // a["div"])
@@ -113,14 +130,57 @@ def run_case(ctg, case):
         )
         return tree_digest(t2)
     if api == "unslice_rand":
-        tree = build_tree(ctg, case)
+        tree = shared_tree if shared_tree is not None else build_tree(ctg, case)
         if not tree.sliced_inds:
             return "nothing sliced"
         return tree_digest(tree.unslice_rand(seed=s))
     if api == "get_subtree":
-        tree = build_tree(ctg, case)
+        tree = shared_tree if shared_tree is not None else build_tree(ctg, case)
         leaves, branches = tree.get_subtree(tree.root, a["size"], search="random", seed=s)
         return [sorted(sorted(x) for x in leaves), sorted(sorted(x) for x in branches)]
+    if api == "greedy_compressed":
+        from cotengra.pathfinders.path_compressed_greedy import GreedyCompressed
+
+        g = GreedyCompressed(chi=a["chi"], temperature=a["temp"], seed=s)
+        return [list(p) for p in g.get_ssa_path(inputs, output, sizes)]
+    if api == "greedy_span":
+        from cotengra.pathfinders.path_compressed_greedy import GreedySpan
+
+        g = GreedySpan(temperature=a["temp"], seed=s)
+        return [list(p) for p in g.get_ssa_path(inputs, output, sizes)]
+    if api == "cp_greedy":
+        cp = pb.ContractionProcessor(inputs, output, sizes)
+        cp.optimize_greedy(temperature=a["temp"], seed=s)
+        return [list(p) for p in cp.ssa_path]
+    if api in ("windowed", "compressed_anneal"):
+        path = ctg.array_contract_path(inputs, output, sizes, optimize="greedy")
+        t = ctg.ContractionTreeCompressed.from_path(inputs, output, sizes, path=path)
+        if api == "windowed":
+            t2 = t.windowed_reconfigure(
+                window_size=a["window"], max_iterations=a["iters"], score_temperature=a["temp"], seed=s
+            )
+        else:
+            t2 = t.simulated_anneal(tsteps=a["tsteps"], numiter=a["numiter"], seed=s)
+        return {"path": [list(p) for p in t2.get_path()], "ssa": [list(p) for p in t2.get_ssa_path()]}
+    if api == "jitter_dict":
+        return sorted((k, round(v, 12)) for k, v in ctg.core.jitter_dict(sizes, a["strength"], seed=s).items())
+    if api == "labels_partition":
+        from cotengra.pathfinders.path_labels import labels_partition
+
+        return [int(x) for x in labels_partition(inputs, output, sizes, seed=s)]
+    if api == "kahypar_partition":
+        from cotengra.pathfinders.path_kahypar import kahypar_subgraph_find_membership
+
+        return [int(x) for x in kahypar_subgraph_find_membership(inputs, output, sizes, parts=a["parts"], seed=s)]
+    if api == "arrays_from_eq":
+        arrs = ctg.utils.make_arrays_from_eq(a["eq"], seed=s)
+        return [[list(arr.shape)] + [round(float(x), 12) for x in arr.ravel()[:4]] for arr in arrs]
+    if api == "nx_equation":
+        import networkx as nx
+
+        G = nx.random_regular_graph(3, a["n"], seed=a["gseed"])
+        c = ctg.utils.networkx_graph_to_equation(G, d_min=2, d_max=5, seed=s)
+        return [[list(t) for t in c[0]], list(c[1]), sorted(c[3].items())]
     # generators
     u = ctg.utils
     if api == "rand_equation":
@@ -179,7 +239,15 @@ def main(argv):
             try:
                 d = run_case(ctg, case)
             except Exception as e:  # identical failures are identical results
-                d = {"raised": f"{type(e).__name__}: {str(e)[:80]}"}
+                import traceback
+
+                tb = traceback.extract_tb(e.__traceback__)
+                if any("/cotengra/" in fr.filename for fr in tb):
+                    d = {"raised": f"{type(e).__name__}: {str(e)[:80]}"}
+                else:
+                    # raised by this worker's own code (a wrong call, a typo):
+                    # harness trouble, never an 'identical result'
+                    d = {"harness_raised": f"{case['api']}: {type(e).__name__}: {str(e)[:200]}"}
             digs.append(d)
         out.append(digs)
     print(json.dumps(out, sort_keys=True, default=str))
